@@ -269,7 +269,26 @@ def _alternatives(e: ast.AST) -> List[ast.AST]:
 
 def shared_mutable(prog: Program, fn: FuncInfo, e: ast.AST) -> Optional[str]:
     """e names a mutable container that outlives the call: a module-level binding (possibly imported) or a class attribute
-    whose value is a dict/list/set display or constructor call.  -> description or None"""
+    whose value is a dict/list/set display or constructor call, or the result of a memoised (lru_cache / cache) function.
+    -> description or None"""
+    if isinstance(e, ast.Call):
+        callee = None
+        f = e.func
+        if isinstance(f, ast.Name):
+            r0 = prog.resolve(fn.module, f.id)
+            callee = r0[1] if r0[0] == 'func' else None
+        elif isinstance(f, ast.Attribute) and isinstance(f.value, ast.Name):
+            if f.value.id in ('self', 'cls') and fn.cls is not None:
+                callee = prog.lookup_method(fn.cls, f.attr)
+            else:
+                r0 = prog.resolve_expr(fn.module, f)
+                callee = r0[1] if r0[0] == 'func' else None
+        if callee is not None:
+            for d in getattr(callee, 'orig_node', callee.node).decorator_list:
+                dn = attr_chain(d.func if isinstance(d, ast.Call) else d) or ''
+                if dn.split('.')[-1] in ('lru_cache', 'cache', 'cached_property', 'memoize'):
+                    return 'the result of %s(), which is memoised by @%s (every call returns the same object)' % (norm(f), dn)
+        return None
     if isinstance(e, ast.Name) and e.id not in fn.params:
         r = prog.resolve(fn.module, e.id)
     elif isinstance(e, ast.Attribute) and isinstance(e.value, ast.Name) and e.value.id in ('self', 'cls') and fn.cls is not None:
@@ -478,3 +497,102 @@ def leaves_flag_loop(loop: ast.While, path: Any) -> bool:
     if val is None:
         return False
     return (val is False) if not neg else (val is True)
+
+
+def truthiness_presence_check(ch: Any, rule: str, module_prefixes: Tuple[str, ...]) -> int:
+    """`if self.x:` / `if not self.x:` used as a presence test on an attribute annotated Optional[Cls] is only a presence test
+    while Cls (and its bases in the repository) define neither __len__ nor __bool__: otherwise an object that exists but is
+    "empty" is taken for absent (and, in the parsers, replaced by a fresh one, dropping the state it carried)."""
+    prog = ch.prog
+    n = 0
+    seen: Set[Tuple[str, str]] = set()
+    for fn in prog.all_functions('proxy'):
+        if fn.cls is None or not fn.module.name.startswith(module_prefixes):
+            continue
+        tests: List[ast.AST] = []
+        for x in walk_no_nested(fn.node):
+            if isinstance(x, (ast.If, ast.While, ast.IfExp, ast.Assert)):
+                tests.append(x.test)
+        atoms: List[ast.AST] = []
+        while tests:
+            t = tests.pop()
+            if isinstance(t, ast.BoolOp):
+                tests.extend(t.values)
+            elif isinstance(t, ast.UnaryOp) and isinstance(t.op, ast.Not):
+                tests.append(t.operand)
+            else:
+                atoms.append(t)
+        for a in atoms:
+            if isinstance(a, ast.Attribute) and isinstance(a.value, ast.Name) and a.value.id == 'self':
+                ann = prog.attr_annotation(fn.cls, a.attr)
+                if ann is None:
+                    continue
+                tc = prog.annotation_class(ann[0].module, ann[1])
+                if tc is None:
+                    continue
+                key = (fn.cls.name, a.attr)
+                if key in seen:
+                    continue
+                seen.add(key)
+                n += 1
+                dunder = None
+                for c in prog.mro(tc) + prog.subclasses(tc):
+                    for nm in ('__len__', '__bool__'):
+                        if nm in c.methods:
+                            dunder = '%s.%s' % (c.name, nm)
+                ch.check(dunder is None, rule, fn, 'truthiness of self.%s : Optional[%s]' % (a.attr, tc.name), 'presence test is a presence test (%s defines neither __len__ nor __bool__)' % tc.name,
+                         '%s tests self.%s by truthiness to see whether a %s exists, but %s is defined: an existing object for which it returns 0/False is taken for absent'
+                         % (fn.qualname, a.attr, tc.name, dunder), line=getattr(a, 'lineno', None))
+    return n
+
+
+def use_after_release_check(ch: Any, rule: str, cls_name: str = 'HttpProxyPlugin', field: str = 'self.upstream') -> int:
+    """typestate on an Optional field: after a call to a method that may set the field to None (found by summary), the field
+    is not dereferenced on the same path unless it was re-assigned or re-tested.  Exception edges are followed: the calls in
+    question sit in except handlers."""
+    from ..cfg import cfg_of
+    from ..flow import fpaths
+    prog = ch.prog
+    ci = prog.class_named(cls_name)
+    nullers: Set[str] = set()
+    for fn in ci.methods.values():
+        for st in walk_no_nested(fn.node):
+            if isinstance(st, ast.Assign) and any(attr_chain(t) == field for t in st.targets) and norm(st.value) == 'None':
+                nullers.add(fn.name)
+    n = 0
+    for fn in ci.methods.values():
+        calls = [c for c in walk_no_nested(fn.node) if isinstance(c, ast.Call) and isinstance(c.func, ast.Attribute) and isinstance(c.func.value, ast.Name)
+                 and c.func.value.id == 'self' and c.func.attr in nullers]
+        if not calls or fn.name in nullers and False:
+            continue
+        g = cfg_of(fn, prog)
+        bad = None
+        checked = 0
+        for p in fpaths(g, limit=200000):
+            ch.paths += 1
+            released_at = None
+            for i, nd, lab in p.executed():
+                if nd.ast is None or nd.kind not in ('stmt', 'test'):
+                    continue
+                a = nd.ast
+                if released_at is not None:
+                    if nd.kind == 'test' and norm(a) == field:
+                        released_at = None if lab is True else released_at
+                        continue
+                    if isinstance(a, ast.Assign) and any(attr_chain(t) == field for t in a.targets) and norm(a.value) != 'None':
+                        released_at = None
+                        continue
+                    for x in walk_no_nested(a):
+                        if isinstance(x, ast.Attribute) and attr_chain(x.value) == field and isinstance(x.ctx, ast.Load):
+                            bad = ('%s.%s is read after %s() was called on the same path; that call may have set %s to None (it does when the connection pool is enabled): '
+                                   'AttributeError is raised out of the handler, the work is torn down at once and whatever was still queued for the client is dropped'
+                                   % (field, x.attr, released_at, field), p.describe(22))
+                if lab != 'exc':
+                    for c in walk_no_nested(a):
+                        if any(c is y for y in calls):
+                            released_at = c.func.attr   # type: ignore[attr-defined]
+                            checked += 1
+        if checked:
+            n += 1
+            ch.check(bad is None, rule, fn, 'no use of %s after release' % field, '%s is not dereferenced after a releasing call on any path' % field, bad[0] if bad else '', witness=bad[1] if bad else None)
+    return n
